@@ -80,9 +80,16 @@ class ProgProp(Prop):
         'extern types int/long/::vt::Ext<K>',
     ]
 
+    same_spelling_bias = 0.2         # fraction of programs from G.gen_same_spelling_prog
+
     def gen_case(self, rng):
         for _ in range(100):
-            c = G.gen_case(rng, want_mc=self.want_mc if self.want_mc is not None else rng.random() < 0.35)
+            want_mc = self.want_mc if self.want_mc is not None else rng.random() < 0.35
+            if not want_mc and rng.random() < self.same_spelling_bias:
+                # one spelling `T`, a different extern (and C++ type) per namespace, all ports rerouted
+                c = G.gen_same_spelling_prog(rng)
+            else:
+                c = G.gen_case(rng, want_mc=want_mc)
             if not c['_info']['comp_ns']:
                 continue
             mc = c['cfg']['multiclient']
@@ -120,6 +127,12 @@ class ProgProp(Prop):
         rng, tier = ctx['rng'], ctx['tier']
         n = self.n_programs[0 if tier == 'quick' else 1]
         cases = [self.gen_case(rng) for _ in range(n)]
+        if self.want_mc is not True:
+            # at least a fifth of the programs: one spelling, a different extern per namespace
+            for i in range(max(3, n // 5)):
+                c = G.gen_same_spelling_prog(rng)
+                if self.accept_case(c):
+                    cases[i] = c
         irs = [X.model_ir(c) for c in cases]
         t0 = time.time()
         progs = X.build_programs(cases, irs)
